@@ -18,6 +18,8 @@ import re
 import sys
 import traceback
 
+# a line of check_ir's `diff` about a tool of a built step: its path / libs, or the PATH / LD_LIBRARY_PATH lists
+_TOOL_FIELD = re.compile(r" \.(tools\.\S+\.(path|libs)|paths|libraryPaths)[\[:]")
 
 def _load(repo):
     sys.path.insert(0, os.path.join(repo, "pym"))
@@ -757,8 +759,15 @@ def run_case(case, tmpdir):
         if case.get("ir"):
             try:
                 res["ir"] = check_ir(jobs, tmpdir)
-                for m in res["ir"]["mismatch"][:3]:
-                    viol.append({"what": "job specification differs from the project: " + m, "sig": "jobspec-differs"})
+                # a tool of the specification that is not the project's tool (path, libs, and the PATH / LD_LIBRARY_PATH
+                # derived from them) gets its own signature and is reported first
+                mm = sorted(res["ir"]["mismatch"], key=lambda m: 0 if _TOOL_FIELD.search(m) else 1)
+                for m in mm[:3]:
+                    if _TOOL_FIELD.search(m):
+                        viol.append({"what": "job specification: a tool (path / libs / PATH / LD_LIBRARY_PATH) of a built step is "
+                                             "not the one of the project: " + m, "sig": "jobspec-tool-differs"})
+                    else:
+                        viol.append({"what": "job specification differs from the project: " + m, "sig": "jobspec-differs"})
                 for m in res["ir"]["dropped"][:2]:
                     viol.append({"what": "job specification: " + m + " [a dependency with the variant-id of a built package but another sandbox]",
                                  "sig": "jobspec-dependency-dropped"})
